@@ -151,3 +151,11 @@ def _mem_roll(case, v):
     if v.get("cls") != "task_exceeds_projected_mem" or v.get("func") != "roll":
         return False
     return (case.get("opt") or {}).get("kind") != "off" and any(st["op"] == "roll" for st in case["prog"]["steps"])
+
+
+@matcher("mem_fused_op_underprojection")
+def _mem_fused(case, v):
+    """A *fused* operation (optimizer on) exceeds its projected memory: the projection of a fused operation
+    is max(own, peak of predecessors) although predecessor outputs stay alive while the operation itself runs."""
+    return (v.get("cls") == "task_exceeds_projected_mem" and bool(v.get("fused"))
+            and (case.get("opt") or {}).get("kind") != "off")
